@@ -842,6 +842,45 @@ theorem nrun_no_panic_poisoned (fc : Bool) (s : NSt) (sched : List NEv)
       · rfl
       · rfl
 
+/-- a step of a `new` call leaves the keyring part alone or is one step of it -/
+theorem nstepEv_k (fc : Bool) (s : NSt) (e : NEv) :
+    (nstepEv fc s e).k = s.k ∨ ∃ ev, (nstepEv fc s e).k = step fc s.k ev := by
+  cases e with
+  | step t f =>
+    simp only [nstepEv, nstep]
+    split
+    · split <;> exact .inl rfl
+    · split
+      · exact .inl rfl
+      · exact .inl rfl
+      · exact .inr ⟨.step t f true, rfl⟩
+    · split <;> exact .inl rfl
+    · split <;> exact .inl rfl
+    · split
+      · split <;> exact .inl rfl
+      · exact .inl rfl
+    · exact .inl rfl
+    · exact .inl rfl
+    · exact .inl rfl
+  | panic t =>
+    simp only [nstepEv, npanic]
+    split
+    · exact .inl rfl
+    · exact .inl rfl
+    · exact .inl rfl
+    · exact .inr ⟨.panic t, rfl⟩
+    · exact .inl rfl
+
+theorem nfrozen_run (s0 : St) (s : NSt) (sched : List NEv) (h : Frozen s0 s.k) :
+    Frozen s0 (nrun true s sched).k := by
+  induction sched generalizing s with
+  | nil => exact h
+  | cons e es ih =>
+    apply ih
+    rcases nstepEv_k true s e with h1 | ⟨ev, h1⟩
+    · rw [h1]; exact h
+    · rw [h1]; exact frozen_step s0 s.k ev h
+
 /-- after the creator has finished: the file is encrypted under `f`, the keyring holds `f`, and every
     caller is before its keyring read, or holds `f`, or has panicked -/
 structure NDone (f : Nat) (s : NSt) : Prop where
